@@ -20,7 +20,7 @@ from checks import msgfamily  # noqa: E402
 
 LEVEL = "fault_enumeration"
 PREFIXES = ("C08/", "crash/")
-EXTRA_WRAPS = ["mc_choose", "abort", "__log_event"]
+EXTRA_WRAPS = ["mc_choose", "abort", "__log_event", "shutdown"]
 
 TPS = ("ux", "uxf", "tcp", "btcp", "tls", "btls", "utls")
 TCPISH = ("tcp", "btcp", "tls", "btls", "utls")
@@ -84,6 +84,10 @@ def scenarios(tp, tier):
             "sc=ctlclient,ctl=on"]
     out += ["sc=conn-cps,ctl=on,forkat=%d" % k for k in range(1, 7)]
     out += ["sc=server,ctl=on,forkat=1", "sc=ctlfork,ctl=on,forkat=1"]
+    if tp in TCPISH:
+        # fork while the connection attempt is still in progress (timers armed, resolver busy)
+        out += ["sc=abandon-resolving,ctl=on,forkat=1", "sc=abandon-connecting,ctl=on,forkat=1",
+                "sc=abandon-handshaking,ctl=on,forkat=1"]
     return out
 
 
